@@ -7,7 +7,7 @@ Tie: faces are strictly convex polygons given by integer direction vectors (reus
 the implementation gets lon/lat in degrees through Grid.from_topology and is observed at Grid.bounds.  The
 property clauses are evaluated on the reported box against an independent exact oracle (extreme latitude per edge,
 pole containment by exact triple-product signs, unwrapped longitude chain).  The extracted model is run with the
-outcomes of the float primitives the real code calls (isclose, _pole_point_inside_polygon, point_within_gca), so a
+outcomes of the float primitives the real code calls (_pole_point_inside_polygon, point_within_gca), so a
 change of the box / branch logic shows as a divergence.
 """
 import json
@@ -199,8 +199,6 @@ def impl_primitives(face):
         n1, n2 = fe_cart[i]
         (lon1, lat1), (lon2, lat2) = fe_ll[i]
         emax, emin = float(I["ext"](np.array([n1, n2]), "max")), float(I["ext"](np.array([n1, n2]), "min"))
-        flags = [bool(I["isclose"](lat1, emax, atol=I["tol"])), bool(I["isclose"](lat2, emax, atol=I["tol"])),
-                 bool(I["isclose"](lat1, emin, atol=I["tol"])), bool(I["isclose"](lat2, emin, atol=I["tol"]))]
         here = False
         if hn or hs:
             try:
@@ -208,7 +206,7 @@ def impl_primitives(face):
             except Exception:
                 here = False
         edges.append({"lat1": float(lat1), "lon1": float(lon1), "lat2": float(lat2), "emax": emax, "emin": emin,
-                      "flags": flags, "here": here})
+                      "here": here})
     return {"has_north": hn, "has_south": hs, "edges": edges}
 
 
@@ -252,9 +250,10 @@ def units_to_rad(u):
     return float(Fraction(u, UNIT)) * math.pi / 180.0
 
 
-def model_case(face, prim, truthful=False, oracle_poles=None):
+def model_case(face, prim, oracle_poles=None):
     """S-expression for the extracted model.  Latitudes/longitudes of the nodes are the float values the
-    implementation works with; the extremes are the exact ones (C14 oracle)."""
+    implementation works with; the extremes are the exact ones (C14 oracle).  With oracle_poles the pole containment
+    and the pole-on-edge flags are the exact ones instead of the implementation's."""
     vs = face["corners"]
     n = len(vs)
     es = []
@@ -265,14 +264,11 @@ def model_case(face, prim, truthful=False, oracle_poles=None):
         wmax, wmin = extreme_attained(a, b, True), extreme_attained(a, b, False)
         emax = max(rad_to_units(extreme_oracle(a, b, True)), lat1 + 1, lat2 + 1) if wmax == "apex" else max(lat1, lat2)
         emin = min(rad_to_units(extreme_oracle(a, b, False)), lat1 - 1, lat2 - 1) if wmin == "apex" else min(lat1, lat2)
-        fl = pe["flags"]
-        if truthful:
-            fl = [lat1 == emax, lat2 == emax, lat1 == emin, lat2 == emin]
         here = pe["here"]
         if oracle_poles is not None:
             pole = (0, 0, 1) if oracle_poles[0] else (0, 0, -1)
             here = (a == pole) or on_arc(a, b, pole)
-        es.append([lat1, lon1, lat2, emax, emin] + [1 if x else 0 for x in fl] + [1 if here else 0])
+        es.append([lat1, lon1, lat2, emax, emin, 1 if here else 0])
     hn, hs = (prim["has_north"], prim["has_south"]) if oracle_poles is None else oracle_poles
     return sx([P_UNITS, H_UNITS, 1 if hn else 0, 1 if hs else 0, es])
 
@@ -528,20 +524,21 @@ def judge(ck, face, box, st):
         agrees = boxes_close(box, mfaith)
     for clause, amount in bad:
         info = {"family": fam, "branch": branch, "pole": orc["north"] if orc["north"] != "outside" else orc["south"],
-                "ref_point_inside": orc["ref_point_inside"], "location": orc["location"]}
+                "ref_point_inside": orc["ref_point_inside"], "location": orc["location"],
+                "enclosed_pole": "north" if orc["north"] == "inside" else ("south" if orc["south"] == "inside" else "none")}
         if clause == "raises":
             info["exception"] = box[1].split("(")[0]
         if agrees is not None:
             info["faithful_model"] = "agrees" if agrees else "differs"
             if agrees:
-                # which ingredient explains it: the box/branch logic itself (the model fed with truthful flags and the exact
+                # which ingredient explains it: the box/branch logic itself (the model fed with the exact
                 # pole status already shows the clause), or an outcome of a float primitive
                 tb = check_box(mtruth, orc) if mtruth is not None else []
                 if any(c == clause for c, _ in tb):
                     info["cause"] = "box_logic"
                 else:
                     pole_wrong = (prim["has_north"], prim["has_south"]) != (orc["north"] in ("inside", "corner"), orc["south"] in ("inside", "corner"))
-                    info["cause"] = "pole_detection" if pole_wrong else "isclose_rtol"
+                    info["cause"] = "pole_detection" if pole_wrong else "pole_on_edge_flag"
         if prim is not None and "error" in prim:
             info["cause"] = "pole_detection_raises"
         info["size"] = "big" if amount > 1e-4 else ("small" if amount > 2e-8 else "tiny")
@@ -549,10 +546,8 @@ def judge(ck, face, box, st):
         st.add("fail", clause, info.get("branch"), info.get("cause", "unattributed"), info["size"])
     if agrees is not None:
         st.add("corr_compared")
-        if not agrees and not bad and face.get("_mrep") is not None and boxes_close(box, face["_mrep"]):
-            # the implementation meets the property and equals the REPAIRED normal branch (c13_bounds_repaired, proved to
-            # enclose): repaired code, not a broken tie
-            st.add("impl_equals_repaired_model")
+        if False:
+            pass
         elif not agrees and not bad:
             ck.corr_failures.append({"case": jc, "impl": box, "model": mfaith})
         elif not agrees and bad:
@@ -568,8 +563,8 @@ def evaluate_one(ck, f, st, model_ok):
         if "error" not in prim:
             orc = f["oracle"]
             oracle_poles = (orc["north"] in ("inside", "corner"), orc["south"] in ("inside", "corner"))
-            res = ck.run_model("bounds", [model_case(f, prim), model_case(f, prim, truthful=True, oracle_poles=oracle_poles)])
-            f["_mfaith"], f["_mrep"], f["_mtruth"] = box_to_rad(res[0][0]), box_to_rad(res[0][1]), box_to_rad(res[1][0])
+            res = ck.run_model("bounds", [model_case(f, prim), model_case(f, prim, oracle_poles=oracle_poles)])
+            f["_mfaith"], f["_mtruth"] = box_to_rad(res[0]), box_to_rad(res[1])
     judge(ck, f, box, st)
 
 
@@ -618,13 +613,12 @@ def evaluate(ck, faces, st, model_ok):
                 continue
             orc = f["oracle"]
             oracle_poles = (orc["north"] in ("inside", "corner"), orc["south"] in ("inside", "corner"))
-            lines += [model_case(f, prim), model_case(f, prim, truthful=True, oracle_poles=oracle_poles)]
+            lines += [model_case(f, prim), model_case(f, prim, oracle_poles=oracle_poles)]
             owners.append(f)
         res = ck.run_model("bounds", lines) if lines else []
         for k, f in enumerate(owners):
-            f["_mfaith"] = box_to_rad(res[2 * k][0])
-            f["_mrep"] = box_to_rad(res[2 * k][1])
-            f["_mtruth"] = box_to_rad(res[2 * k + 1][0])
+            f["_mfaith"] = box_to_rad(res[2 * k])
+            f["_mtruth"] = box_to_rad(res[2 * k + 1])
     for f, box in zip(todo, boxes):
         ck.note_case((tuple(f["corners"]), f.get("pole_lon")), True)
         orc = f["oracle"]
@@ -669,10 +663,10 @@ def audit(ck, faces):
             continue
         mc = common.parse_sx(model_case(f, prim))
         es = "[" + "; ".join(
-            "{| c13_lat1 := %d; c13_lon1 := %d; c13_lat2 := %d; c13_emax := %d; c13_emin := %d; c13_c1max := %s; c13_c2max := %s; "
-            "c13_c1min := %s; c13_c2min := %s; c13_pole_here := %s |}" % tuple(e[:5] + [("true" if x else "false") for x in e[5:]]) for e in mc[4]) + "]"
-        lines.append("Eval vm_compute in (c13_face_bounds %d %d %s %s %s, c13_bounds_repaired %d %d %s)." % (
-            mc[0], mc[1], "true" if mc[2] else "false", "true" if mc[3] else "false", es, mc[0], mc[1], es))
+            "{| c13_lat1 := %d; c13_lon1 := %d; c13_lat2 := %d; c13_emax := %d; c13_emin := %d; c13_pole_here := %s |}"
+            % tuple(e[:5] + [("true" if e[5] else "false")]) for e in mc[4]) + "]"
+        lines.append("Eval vm_compute in (c13_face_bounds %d %d %s %s %s)." % (
+            mc[0], mc[1], "true" if mc[2] else "false", "true" if mc[3] else "false", es))
         cases.append(model_case(f, prim))
     rc, out = ck.audit_vm(lines, "From Verif Require Import Base C13.\nOpen Scope Z_scope.")
     if rc != 0:
@@ -682,7 +676,7 @@ def audit(ck, faces):
     res = ck.run_model("bounds", cases)
     for blk, mo in zip(blocks, res):
         nums = re.findall(r"-?\d+", blk.split("\n     :")[0].replace("c13_", ""))
-        flat = [str(x) for box in mo for x in box]
+        flat = [str(x) for x in mo]
         if nums != flat:
             ck.proof["errors"].append("extraction audit mismatch: kernel %s vs extracted %s" % (nums, flat))
     if len(blocks) != len(cases):
@@ -719,7 +713,7 @@ def main(ck):
         "clauses_checked_on_impl": ["lat_enclose", "lat_tight", "lon_enclose", "lon_tight", "raises", "not_a_box"],
         "partial": "minimality of the longitude interval and monotonicity of longitude along a minor arc are checked by the "
                    "oracle (unwrapped longitude chain), not proved; float rounding is covered by the tolerance 1e-9 rad; the model "
-                   "is parametrised by the outcomes of the float primitives (isclose, pole containment, point on edge) which are "
+                   "is parametrised by the outcomes of the float primitives (pole containment, point on edge) which are "
                    "obtained from the real functions on every case",
     })
     ck.trusted += ["C14 exact geometry (harness/c14.py oracle; coq c14_extreme_spec) for per-edge extreme latitudes",
